@@ -75,14 +75,12 @@ def show(
 
 def merge_json_union(first_file: PathStr, second_file: PathStr,
                      soft: bool = False) -> None:
-    with open(first_file, 'r+') as f_1:
+    with open(first_file) as f_1:
         config_1 = json.loads(f_1.read())
-        with open(second_file) as f_2:
-            config_2 = json.loads(f_2.read())
-            config_1 = settings.merge_dicts(config_1, config_2, soft)
-        f_1.truncate(0)
-        f_1.seek(0)
-        f_1.write(json.dumps(config_1, indent=4, sort_keys=True))
+    with open(second_file) as f_2:
+        config_2 = json.loads(f_2.read())
+    config_1 = settings.merge_dicts(config_1, config_2, soft)
+    settings.write_to_json_file(first_file, config_1)
 
 
 def is_number(token: str) -> bool:
@@ -152,8 +150,7 @@ def set_config(config_path: PathStr, arg_list: typing.Sequence[str]) -> None:
             # no argument, toggle if it's a boolean parameter
             config[arg] = not config[arg] if isinstance(config[arg],
                                                         bool) else config[arg]
-    with open(config_path, 'w') as config_file:
-        config_file.write(json.dumps(config, indent=4, sort_keys=True))
+    settings.write_to_json_file(config_path, config)
 
 
 def generate(arg_list: typing.Sequence[str]) -> typing.Dict[str, typing.Any]:
